@@ -230,6 +230,44 @@ func goexitCapacity(ns []int, maxG int) []Scenario {
 	return out
 }
 
+// ownGoexit: a job that cancels its own per-job context and then kills its
+// goroutine, followed by jobs (live context) that need the full capacity.
+func ownGoexit(ns []int) []Scenario {
+	var out []Scenario
+	for _, n := range ns {
+		for _, coe := range both {
+			if coe {
+				// (fail-fast would abandon a barrier job that already started)
+				s := Scenario{N: n, COE: coe}
+				s.Jobs = append(s.Jobs, JobSpec{Out: OwnGoexit, OwnLive: true})
+				for i := 0; i < n; i++ {
+					s.Jobs = append(s.Jobs, JobSpec{Out: Barrier})
+				}
+				out = append(out, s)
+			}
+			s2 := Scenario{N: n, COE: coe}
+			s2.Jobs = append(s2.Jobs, JobSpec{Out: OwnGoexit, OwnLive: true}, JobSpec{Out: OK}, JobSpec{Out: OK, Deps: []int{1}})
+			out = append(out, s2)
+		}
+	}
+	return out
+}
+
+// defaultLimit: Concurrency unset (max(GOMAXPROCS,4) workers), failure and
+// cancellation with other jobs in flight.
+func defaultLimit() []Scenario {
+	var out []Scenario
+	add := func(s Scenario) { s.GOMAXPROCS = 1; out = append(out, s) }
+	for _, coe := range both {
+		add(mk(0, coe, [][]int{nil, nil}, []string{OK, Err}))
+		add(mk(0, coe, [][]int{nil, nil}, []string{Err, OK}))
+		add(mk(0, coe, [][]int{nil, nil}, []string{Gate, Err}))
+	}
+	add(withCancel(mk(0, false, [][]int{nil, nil}, []string{Gate, CancelOK}), false, false))
+	add(withCancel(mk(0, false, [][]int{nil}, []string{OK}), true, false))
+	return out
+}
+
 // Family returns the scenario list of a property check at a tier.
 func Family(prop, tier string) ([]Scenario, error) {
 	th := tier == "thorough"
@@ -254,6 +292,7 @@ func Family(prop, tier string) ([]Scenario, error) {
 		out = append(out, Core(3, n12, []bool{false}, []string{OK}, -1)...)
 		out = append(out, shapes([][][]int{Indep4}, n12, []bool{true}, []string{OK}, -1)...)
 		out = append(out, goexitCapacity(n12, 2)...)
+		out = append(out, ownGoexit(n12)...)
 		// census: same N, growing number of independent jobs, with and without Goexit
 		for _, n := range n12 {
 			for k := n + 1; k <= n+3 && k <= 4; k++ {
@@ -314,6 +353,8 @@ func Family(prop, tier string) ([]Scenario, error) {
 		}
 		out = append(out, cancelFamily(2, n12, th)...)
 		out = append(out, secondCaller([]int{2})...)
+		out = append(out, ownGoexit(n12)...)
+		out = append(out, defaultLimit()...)
 		for _, s := range Core(2, n12, both, outs, 1) {
 			out = append(out, withEmitter(s, 1))
 		}
@@ -368,6 +409,11 @@ func Family(prop, tier string) ([]Scenario, error) {
 				out = append(out, s)
 			}
 		}
+		for _, n := range n12 {
+			for _, v := range Vectors(2, []string{OK, ErrSame, ErrWrap}, -1) {
+				out = append(out, mk(n, false, [][]int{nil, nil}, v))
+			}
+		}
 		if th {
 			out = append(out, Core(4, n12, []bool{false}, okerr, 2)...)
 			out = append(out, Core(3, []int{3}, []bool{false}, okerr, -1)...)
@@ -381,6 +427,16 @@ func Family(prop, tier string) ([]Scenario, error) {
 			if s.COE {
 				out = append(out, s)
 			}
+		}
+		// several jobs failing with the same error value, or with an error that wraps it
+		for _, n := range n12 {
+			for _, v := range Vectors(2, []string{OK, Err, ErrSame, ErrWrap}, -1) {
+				out = append(out, mk(n, true, [][]int{nil, nil}, v))
+			}
+			for _, v := range Vectors(3, []string{ErrSame, ErrWrap}, -1) {
+				out = append(out, mk(n, true, [][]int{nil, nil, nil}, v))
+			}
+			out = append(out, mk(n, true, [][]int{nil, nil, {0}}, []string{ErrSame, ErrSame, OK}))
 		}
 		if th {
 			out = append(out, Core(4, n12, []bool{true}, okerr, 2)...)
